@@ -241,7 +241,12 @@ def gen_text(r, closer=None, depth=0):
         else:
             parts.append(r.choice(WORDS))
     s = ' '.join(parts)
-    return s, re.sub(r'[{}\s]', '', s)
+    e = re.sub(r'[{}\s]', '', s)
+    if r.random() < 0.12 and depth == 0:
+        # a comment inside the argument: everything through the end of the line is dropped
+        s = s + '%Wz\n' + 'Wg'
+        e = e + 'Wg'
+    return s, e
 
 
 def gen_value(r, typ, closer=None):
@@ -250,6 +255,9 @@ def gen_value(r, typ, closer=None):
         s, e = gen_text(r, closer)
         feat = 'untyped' + ('/hidden-bracket' if closer and ('{' + closer[1]) in s else '') + ('/nested-bracket' if closer and closer[0] in s else '')
         return s, ['text', e], feat
+    if typ == 'url':
+        u = r.choice(['a#b~c%d&e', 'http://x.org/~u/?q=1&r=2#f', 'Wa%Wb'])
+        return u, ['text', u], 'url'
     if typ == 'str':
         if r.random() < 0.25:
             return 'Wa{Wb}Wc', ['str', 'WaWbWc'], 'str/inner-group'
@@ -350,7 +358,7 @@ def gen_sig(r):
         sp = r.choice(['', '', ' '])
         if k < 0.35:
             br = r.choice(['[]', '[]', '()', '<>'])
-            typ = r.choice([None, None, 'str', 'int', 'dimen', 'list', 'dict'])
+            typ = r.choice([None, None, 'str', 'int', 'dimen', 'list', 'dict', 'url'])
             spec = '%s %s%s %s' % (br[0], name, (':' + typ) if typ else '', br[1])
             sig.append(spec)
             present = r.random() < 0.6 and br not in pending_absent
@@ -694,7 +702,8 @@ def run_sig(case, st):
         a = [x for x in L.tokenize(node.argSource, t) if x[0] != 10]
         b = [x for x in L.tokenize(case['call'], t) if x[0] != 10]
         # (an expanded-token argument records the source of its expansion, by design: not compared)
-        if a != b and not any(f.startswith(('raw-', 'XTok/multi')) for f in case['feats']):
+        # (a url value is read with % # ~ & as ordinary characters: it cannot be re-tokenised under the default table)
+        if a != b and not any(f.startswith(('raw-', 'XTok/multi')) or 'url' in f for f in case['feats']):
             bad.append('argSource %r does not re-tokenise to the invocation %r' % (node.argSource, case['call']))
     if bad:
         st.violation(classify_sig(case, badname, 'binding'), case, 'args=%r call=%r: %s' % (case['sig'], case['call'], '; '.join(bad[:3])))
